@@ -256,6 +256,7 @@ def gen_cases(ctx, count, n_range, k_range, weakly_modes, want=("ok",), q_per=6,
                 conds.append((("a", rng.randrange(n)) if rng.random() < 0.5 else ("!", ("a", rng.randrange(n))), ch))
             rng.shuffle(conds)
             queries = (core.gen_deep_pairs(rng, n, 2, conds) + list(queries))[:max(q_per, 4)] if q_per else []
+            kind = "deep_pairs" if q_per else ""
         elif rng.random() < cost and n_range[1] >= 5:
             n = nq = rng.randint(max(5, n_range[0]), min(6, n_range[1]))
             conds, queries = core.gen_cost_case(rng, n)
@@ -326,6 +327,7 @@ def gen_cases(ctx, count, n_range, k_range, weakly_modes, want=("ok",), q_per=6,
             continue
         case["_info"] = info
         case["_hintq"] = hintq
+        case["_kind"] = kind
         r = rng.random()
         if r > 0.9:
             case["inference_kwargs"] = {"_shared": True}
